@@ -60,7 +60,7 @@ Section WithR.
   Lemma eq_nonad_plain a b :
     strcls a = false -> strcls b = false -> eq_nonad R a b = walk a b.
   Proof.
-    intros Sa Sb. unfold eq_nonad.
+    intros Sa Sb. unfold eq_nonad, eq_nonad_s.
     destruct (exact_term a && negb (exact_term b)).
     - rewrite Sb. apply walk_sym.
     - rewrite Sa. reflexivity.
@@ -108,14 +108,26 @@ Section WithR.
     eq_m R (PAD hs1 b1) (PAD hs2 b2) = walk_list hs1 hs2 && walk b1 b2.
   Proof.
     intros W1 W2. destruct (wf_ad _ _ W1) as [H1 B1]. destruct (wf_ad _ _ W2) as [H2 B2].
-    unfold eq_m. rewrite list_eqb_plain, eq_elem_plain; auto.
+    unfold eq_m, eq_m_s. rewrite list_eqb_plain, eq_elem_plain; auto.
   Qed.
+
+  Lemma strcls_ad h b : strcls (PAD h b) = false.
+  Proof. reflexivity. Qed.
+
+  Lemma eq_m_node_ad c f l h b :
+    strcls (PNode c f l) = false -> eq_m R (PNode c f l) (PAD h b) = false.
+  Proof.
+    intro S. unfold eq_m, eq_m_s. destruct (exact_term (PNode c f l)); auto. rewrite S. reflexivity.
+  Qed.
+
+  Lemma eq_m_ad_node c f l h b : eq_m R (PAD h b) (PNode c f l) = false.
+  Proof. reflexivity. Qed.
 
   (* ---------------------------------------------------------------- reflexive *)
   Lemma eq_m_refl a : wf a = true -> eq_m R a a = true.
   Proof.
     destruct a as [| z | c f l | hs b]; intro W; try discriminate.
-    - unfold eq_m, eq_nonad. rewrite andb_negb_r.
+    - unfold eq_m, eq_m_s, eq_nonad_s. rewrite andb_negb_r.
       destruct (strcls (PNode c f l)).
       + apply String.eqb_refl.
       + apply walk_refl. exact W.
@@ -131,15 +143,15 @@ Section WithR.
     destruct a as [| z | c f l | hs b0], b as [| z2 | c2 f2 l2 | hs2 b2]; intros Wa Wb G;
       try discriminate.
     - (* node, node *)
-      unfold eq_m, eq_nonad.
+      unfold eq_m, eq_m_s, eq_nonad_s.
       clear Wa Wb. unfold sym_guard in G.
       destruct c, c2; cbn [strcls exact_term subcls_nonstr andb orb negb] in *; try discriminate;
         try apply String.eqb_sym; try apply walk_sym; reflexivity.
     - (* node, AD *)
-      clear Wa Wb. unfold eq_m, sym_guard in *.
+      clear Wa Wb. unfold eq_m, eq_m_s, sym_guard in *.
       destruct c; cbn [strcls exact_term subcls_nonstr andb orb negb] in *; try discriminate; reflexivity.
     - (* AD, node *)
-      clear Wa Wb. unfold eq_m, sym_guard in *.
+      clear Wa Wb. unfold eq_m, eq_m_s, sym_guard in *.
       destruct c2; cbn [strcls exact_term subcls_nonstr andb orb negb] in *; try discriminate; reflexivity.
     - rewrite !eq_m_ad by assumption. now rewrite walk_list_sym, walk_sym.
   Qed.
@@ -154,25 +166,23 @@ Section WithR.
     destruct a as [| z | c1 f1 l1 | hs1 b1]; try discriminate;
       destruct b as [| z2 | c2 f2 l2 | hs2 b2]; try discriminate;
       destruct c as [| z3 | c3 f3 l3 | hs3 b3]; try discriminate.
-    - (* three nodes *)
+    1: { (* three nodes *)
       destruct (strcls (PNode c1 f1 l1)) eqn:S1.
       + (* all string-compared *)
         assert (X1 : exact_term (PNode c1 f1 l1) = false) by (destruct c1; simpl in *; congruence).
         assert (X2 : exact_term (PNode c2 f2 l2) = false) by (destruct c2; simpl in *; congruence).
-        unfold eq_m, eq_nonad. rewrite X1, X2. simpl andb. cbv iota. rewrite S1, <- G1.
+        unfold eq_m, eq_m_s, eq_nonad_s. rewrite X1, X2. simpl andb. cbv iota. rewrite S1, <- G1.
         rewrite !String.eqb_eq. congruence.
-      + unfold eq_m. rewrite !eq_nonad_plain by congruence. apply walk_trans.
-    - (* node node AD *)
-      unfold eq_m at 2. destruct (exact_term (PNode c2 f2 l2)); try discriminate.
-      change (strcls (PAD hs3 b3)) with false in G2. rewrite G2. intros _ H; cbv iota in H; discriminate H.
-    - (* node AD node *) intros _ H; cbv beta iota delta [eq_m] in H; discriminate H.
-    - (* node AD AD *)
-      unfold eq_m at 1. destruct (exact_term (PNode c1 f1 l1)); try discriminate.
-      change (strcls (PAD hs2 b2)) with false in G1. rewrite G1. intros H; cbv iota in H; discriminate H.
-    - (* AD node node *) intros H; cbv beta iota delta [eq_m] in H; discriminate H.
-    - intros H; cbv beta iota delta [eq_m] in H; discriminate H.
-    - intros _ H; cbv beta iota delta [eq_m] in H; discriminate H.
-    - rewrite !eq_m_ad by assumption. intros A B.
+      + change (eq_m R (PNode c1 f1 l1) (PNode c2 f2 l2)) with (eq_nonad R (PNode c1 f1 l1) (PNode c2 f2 l2)).
+        change (eq_m R (PNode c2 f2 l2) (PNode c3 f3 l3)) with (eq_nonad R (PNode c2 f2 l2) (PNode c3 f3 l3)).
+        change (eq_m R (PNode c1 f1 l1) (PNode c3 f3 l3)) with (eq_nonad R (PNode c1 f1 l1) (PNode c3 f3 l3)).
+        rewrite !eq_nonad_plain by congruence. apply walk_trans. }
+    all: rewrite ?strcls_ad in *.
+    all: try (rewrite (eq_m_ad_node c2 f2 l2); discriminate).
+    all: try (rewrite (eq_m_ad_node c3 f3 l3); intros _ H; discriminate H).
+    all: try (rewrite (eq_m_node_ad c1 f1 l1 hs2 b2) by congruence; discriminate).
+    all: try (rewrite (eq_m_node_ad c2 f2 l2 hs3 b3) by congruence; intros _ H; discriminate H).
+    rewrite !eq_m_ad by assumption. intros A B.
       apply andb_true_iff in A as [A1 A2]. apply andb_true_iff in B as [B1 B2].
       rewrite (walk_list_trans _ _ _ A1 B1), (walk_trans _ _ _ A2 B2). reflexivity.
   Qed.
@@ -209,7 +219,7 @@ Proof.
     + (* two Var/Constant objects holding values of the same python type *)
       apply Nat.eqb_eq in G2.
       assert (X1 : exact_term (PNode c1 f1 l1) = false) by (destruct c1; simpl in *; congruence).
-      unfold eq_m, eq_nonad. rewrite X1. simpl andb. cbv iota. rewrite S1.
+      unfold eq_m, eq_m_s, eq_nonad_s. rewrite X1. simpl andb. cbv iota. rewrite S1.
       rewrite String.eqb_eq.
       assert (L1 : l1 = []).
       { destruct c1; simpl in S1; try discriminate; simpl in Wa;
@@ -234,14 +244,13 @@ Proof.
         try (specialize (V1 eq_refl)); try (specialize (V2 eq_refl)); try discriminate;
         try congruence; try (apply dec_inj in H; congruence).
     + (* neither is a Var/Constant: the walk *)
-      unfold eq_m. rewrite eq_nonad_plain by congruence. intro H.
+      change (eq_m R (PNode c1 f1 l1) (PNode c2 f2 l2)) with (eq_nonad R (PNode c1 f1 l1) (PNode c2 f2 l2)).
+      rewrite eq_nonad_plain by congruence. intro H.
       apply walk_hk; auto.
   - (* node, AD *)
-    unfold eq_m. destruct (exact_term (PNode c1 f1 l1)); try discriminate.
-    change (strcls (PAD hs2 b2)) with false in G1. rewrite G1. intros H; cbv iota in H; discriminate H.
-  - intros H; cbv beta iota delta [eq_m] in H; discriminate H.
+    rewrite strcls_ad in G1. rewrite (eq_m_node_ad R) by assumption. discriminate.
   - rewrite eq_m_ad by assumption. intro H. apply andb_true_iff in H as [H1 H2].
-    destruct (wf_ad R _ _ Wa) as [A1 A2]. destruct (wf_ad R _ _ Wb) as [B1 B2].
+    destruct (wf_ad _ _ Wa) as [A1 A2]. destruct (wf_ad _ _ Wb) as [B1 B2].
     simpl in G2.
     assert (Gh : nh || nfa_list hs1 hs2 = true).
     { destruct nh; simpl in *; auto. apply andb_true_iff in G2 as [G2 _]. exact G2. }
@@ -310,12 +319,12 @@ Proof.
       apply andb_true_iff in Gl as [Gx Gr]. apply andb_true_iff in Gl2 as [Gy Gr2].
       inversion IH as [|? ? IHx IHrest]; subst.
       rewrite (IHx y Wx Wy Nx Sx Qx Qy Gx Gy).
-      rewrite (IHr IHrest Wr Qr Gr r2 Wr2 Nr Sr Qr2 Gr2).
+      rewrite (IHr IHrest Qr Gr Wr r2 Wr2 Nr Sr Qr2 Gr2).
       destruct (unify_ident x y); simpl; auto.
       now rewrite andb_false_r. }
     rewrite LST.
     destruct (cls_eqb c CNot) eqn:EN.
-    + rewrite EN in NF. simpl in NF. rewrite NF. simpl. reflexivity.
+    + simpl in NF. rewrite NF. simpl. reflexivity.
     + simpl. now rewrite andb_assoc.
 Qed.
 
@@ -336,10 +345,15 @@ Proof.
     destruct c1; simpl in S1; try discriminate; simpl in Ga; try discriminate.
     destruct c2; simpl in G1; try discriminate; simpl in Gb; try discriminate.
     rewrite (wf_const_args _ _ Wa), (wf_const_args _ _ Wb) in *.
-    unfold eq_m, eq_nonad. simpl. rewrite !RC.
+    unfold eq_m, eq_m_s, eq_nonad_s. simpl. rewrite !RC.
     simpl in Qa, Qb. rewrite !andb_true_r in Qa, Qb.
     unfold noquote_val in Qa, Qb. apply String.eqb_eq in Qa. apply String.eqb_eq in Qb.
     unfold sig_eqb. rewrite Qa, Qb. simpl. now rewrite !andb_true_r.
-  - unfold eq_m. rewrite eq_nonad_plain by congruence.
+  - change (eq_m R (PNode c1 f1 l1) (PNode c2 f2 l2)) with (eq_nonad R (PNode c1 f1 l1) (PNode c2 f2 l2)).
+    rewrite eq_nonad_plain by congruence.
     apply walk_unify; assumption.
 Qed.
+
+(* ---------------------------------------------------------------- the concrete printer is right on Constant / Var nodes *)
+Lemma repr_m_atoms : R_atoms repr_m.
+Proof. split; intro v; reflexivity. Qed.
